@@ -63,7 +63,7 @@ KNOWN_FINDINGS = [
     # C09: WRAP YES and only one curve (the index).  LASSectionArray._add_member_with_wrap_mode never completes a frame
     # on the index line, so the second frame raises "array overflow; frame length 2 which should be length 1".
     # Minimal: "~V\nVERS. 2.0:\nWRAP. YES:\n~C\nDEPT.M :\n~A\n1.0\n2.0\n".  Excluded: wrapped renderings with k == 1.
-    'c09-wrapped-single-curve',
+    # (repaired in /repo by 'fix: LASRead wrap mode: a frame of a single (index) curve ...': exclusion c09-wrapped-single-curve removed)
     # C09: the ~W NULL value is not given to the array section ("TODO: Pass in NULL"): tokens that are not numbers become
     # -999.25 whatever NULL says (NULL. -9999 -> LASRead.null_value == -9999 but the array holds -999.25).
     # Excluded: contents that declare NULL != -999.25 AND contain a non-numeric data token.
